@@ -5,6 +5,7 @@ record; violations are appended to `World.violations` (oracle name + message + o
 import contextlib
 import copy
 import io
+import json
 import math
 import pickle
 import traceback
@@ -111,6 +112,7 @@ def build_jx(shape):
         return jx.Branch(comp, ncomp=k) if share == "all" else jx.Branch([mk_comp() for _ in range(k)])
     cells = []
     cache = {}
+    cell_cache = {}
     for c in shape["cells"]:
         branches = []
         pre = c.get("pre") or {}
@@ -127,7 +129,12 @@ def build_jx(shape):
                 branches.append(cache[k])
             else:
                 branches.append(jx.Branch([mk_comp() for _ in range(k)]))
-        cells.append(jx.Cell(branches, parents=list(c["parents"])))
+        key = json.dumps(c, sort_keys=True)
+        if share == "all" and kind == "network" and key in cell_cache:
+            cells.append(cell_cache[key])  # the same Cell object listed several times (aliased constituent)
+        else:
+            cell_cache[key] = jx.Cell(branches, parents=list(c["parents"]))
+            cells.append(cell_cache[key])
     if kind == "cell":
         return cells[0]
     return jx.Network(cells)
